@@ -174,7 +174,7 @@ func (c *Client) Get(ctx context.Context, key client.ObjectKey, obj client.Objec
 	if err := c.fault("get", kind, key.Name, FaultOther); err != nil {
 		return err
 	}
-	if c.Lag[kind] && verifrt.Choice("lag."+kind, 0, 1) == 1 {
+	if (c.Lag[kind] || c.Lag[kind+"/"+key.Name]) && verifrt.Choice("lag."+kind, 0, 1) == 1 {
 		return apierrors.NewNotFound(gr(kind), key.Name)
 	}
 	switch o := obj.(type) {
